@@ -142,3 +142,23 @@ package panos
 //vc:  assert[C03] at "gb.nameOnDevice = ga.Name" @netspocGroupBoundOnce gb.nameOnDevice == ""
 //vc:func (*rulesPair).adaptGroups
 //vc:  invariant[C03] 1 "for i, adr := range lb" true
+
+// ---- C18: a raw / IPv6 part that cannot be merged is reported ----
+// processVsysPairs refuses parts whose <device> names differ; MergeSpoc must
+// not ignore that: it only returns when the merge was carried out.
+//vc:ghost var panMergeFailed bool
+//vc:func (*PanConfig).MergeSpoc
+//vc:  init panMergeFailed = false
+//vc:  assign after "processVsysPairs(p1, p2" panMergeFailed = callresult != nil
+//vc:  ensures[C18] @mergeErrorReported !panMergeFailed
+//vc:func processVsysPairs$1
+//vc:  nullable c
+//vc:  invariant[C18] 1 "for _, v := range d.Vsys" true
+//vc:  ensures[C18] @deviceNeverNil result0 != nil
+//vc:  ensures[C18] @firstDeviceEntry (c != nil && c.Devices != nil && len(c.Devices.Entries) > 0) ==> result0 == c.Devices.Entries[0]
+//vc:  ensures[C18] @noDeviceNoName !(c != nil && c.Devices != nil && len(c.Devices.Entries) > 0) ==> result0.Name == ""
+//vc:func processVsysPairs
+//vc:  nullable c1, c2
+//vc:  invariant[C18] 1 "for _, v1 := range d1.Vsys" true
+//vc:  invariant[C18] 2 "for _, v2 := range d2.Vsys" true
+//vc:  ensures[C18] @deviceNameClashIsError (c1 != nil && old(c1.Devices) != nil && old(len(c1.Devices.Entries)) > 0 && c2 != nil && old(c2.Devices) != nil && old(len(c2.Devices.Entries)) > 0 && old(c1.Devices.Entries[0].Name) != "" && old(c2.Devices.Entries[0].Name) != "" && old(c1.Devices.Entries[0].Name) != old(c2.Devices.Entries[0].Name)) ==> result != nil
